@@ -25,7 +25,7 @@ PROP = dict(
     assumptions=[
         "contract strings in the store are canonical (EIP-55) address strings, as common.Address.String() produces them (checked by the harness on every case); a hand-written genesis with other spellings is outside the model",
         "genesis import preserves the invariant for well-formed record lists only (distinct ids, duplicate-free disjoint contract lists, as every export of a reachable state is); InitGenesis itself does not validate the records",
-        "has_code(address) is an oracle input read from the EVM keeper before each receipt",
+        "has_code(address) is an oracle input read from the EVM keeper before each receipt (for a contract creation: after the creation, i.e. the code the hook finds; a constructor that registers itself and returns no code is part of the real-transaction stream, and synthetic creation receipts carry receipt.ContractAddress)",
         "ABI decoding of event data is abstracted to: unpacks to (contract, recipient, id) / does not unpack; the harness builds the bytes with the real ABI, including dirty padding and truncated data",
     ],
 )
